@@ -11,6 +11,7 @@ import (
 	"pgregory.net/rapid"
 
 	"verif/ev"
+	"verif/jv"
 )
 
 func TestMain(m *testing.M) {
@@ -134,6 +135,20 @@ func report(t *rapid.T, rec *ev.Recorder, c any, fl *failure) {
 
 // finish is called at the end of a test function.
 func finish(rec *ev.Recorder) { rec.Flush() }
+
+// fixNil repairs what encoding/json does to a JSON null decoded into a *jv.V (it leaves the
+// pointer nil instead of calling UnmarshalJSON).
+func fixNil(v **jv.V) {
+	if *v == nil {
+		*v = jv.NullV()
+	}
+}
+
+func fixNils(vs []*jv.V) {
+	for i := range vs {
+		fixNil(&vs[i])
+	}
+}
 
 func mustJSON(v any) string {
 	b, err := json.Marshal(v)
